@@ -264,20 +264,9 @@ func (d *Decoder) readObjectDef() (interface{}, error) {
 	//add to slice
 	d.clsDefList = append(d.clsDefList, clsD)
 
-	tag, err := d.readTag()
-	if err != nil {
-		hlog.Debugf("reading tag err:%v", err)
-		return nil, nil //ignore
-	}
-
-	if objectLenTag(tag) {
-		return d.ReadLenTagObject(tag)
-	}
-
-	if tag == _objectTag {
-		return d.readTagObject()
-	}
-	return nil, newCodecError("readObjectDef", "unknown tag after class def: 0x%x", tag)
+	// value ::= class-def value: the definition may be followed by any value (another definition,
+	// a list of instances, ...), not only by an instance of the class just defined
+	return d.readData()
 }
 
 // var readObjectIndex = 0
